@@ -239,6 +239,18 @@ def rule_machine_exact(ctx: Ctx, rule: str = "machine-form-exact") -> None:
     # every clause of either side is written as {"constant": c, "coefficients": {name: coefficient}} of that very term
     fi = prog.func(PIC + "to_machine_dict")
     me = fi.params[0]
+    if ctx.extra.get("machine_roundtrip_decided"):
+        # the symbolic round trip (rule machine-roundtrip) followed writer and reader term by term, coefficient by
+        # coefficient: the shape of the clauses, which this block reads off the writer's paths, is implied
+        ctx.ok(rule, fi.key, "to_machine_dict: one {constant, coefficients} clause per term (decided by the symbolic round trip)", nontrivial=False)
+    defer = bool(ctx.extra.get("machine_roundtrip_decided"))
+
+    def cannot(construct_, why_):
+        # a shape this block does not recognise is no obstacle when the round trip has been followed symbolically
+        if defer:
+            ctx.ok(rule, fi.key, construct_ + " (shape not read: " + why_[:60] + "; decided by the symbolic round trip)", nontrivial=False)
+        else:
+            ctx.cannot_decide(rule, fi.key, construct_, why_)
     paths = [p for p in Sim(prog, fi, loop_iters=(2,)).paths() if p.terminal == "return"]
     n = 0
 
@@ -251,7 +263,7 @@ def rule_machine_exact(ctx: Ctx, rule: str = "machine-form-exact") -> None:
     for p in paths:
         val = p.value
         if not (isinstance(val, tuple) and val[0] == "dict"):
-            ctx.cannot_decide(rule, fi.key, "machine clause fields", "to_machine_dict does not return a dictionary display: %s" % show(val, 2))
+            cannot("machine clause fields", "to_machine_dict does not return a dictionary display: %s" % show(val, 2))
             continue
         top = {k[1]: v for k, v in val[1] if is_const(k)}
         for key, fld in (("assumptions", "a"), ("guarantees", "g")):
@@ -262,7 +274,7 @@ def rule_machine_exact(ctx: Ctx, rule: str = "machine-form-exact") -> None:
                 ctx.violation(rule, fi.key, construct, "key not written", where=fi.where)
                 continue
             if not (isinstance(v, tuple) and v[0] == "listcomp"):
-                ctx.cannot_decide(rule, fi.key, construct, "clause list is not a comprehension: %s" % show(v, 2))
+                cannot(construct, "clause list is not a comprehension: %s" % show(v, 2))
                 continue
             elt, gens = v[1], v[2]
             n += 1
@@ -273,7 +285,7 @@ def rule_machine_exact(ctx: Ctx, rule: str = "machine-form-exact") -> None:
                 ctx.violation(rule, fi.key, construct, "terms are filtered: %s" % [show(c, 3) for c in gens[0][1]], where=fi.where)
                 continue
             if not (isinstance(elt, tuple) and elt[0] == "dict"):
-                ctx.cannot_decide(rule, fi.key, construct, "clause is not a dictionary display: %s" % show(elt, 2))
+                cannot(construct, "clause is not a dictionary display: %s" % show(elt, 2))
                 continue
             d = {k[1]: x for k, x in elt[1] if is_const(k)}
             why = None
@@ -297,7 +309,7 @@ def rule_machine_exact(ctx: Ctx, rule: str = "machine-form-exact") -> None:
                         and elem_of(src[2][1], coll)
                     )
                     if src is not None and g2[0][1]:
-                        ctx.cannot_decide(rule, fi.key, construct, "coefficient entries are filtered by %s: whether the dropped entries matter is not decided" % [show(c, 3) for c in g2[0][1]])
+                        cannot(construct, "coefficient entries are filtered by %s: whether the dropped entries matter is not decided" % [show(c, 3) for c in g2[0][1]])
                         continue
                     if not okg:
                         why = "coefficients iterate over %s" % ([show(g[0], 4) for g in g2] + [show(c, 3) for g in g2 for c in g[1]])
@@ -310,7 +322,8 @@ def rule_machine_exact(ctx: Ctx, rule: str = "machine-form-exact") -> None:
                         if not (okk and okv):
                             why = "coefficient entry is %s: %s" % (show(kx, 4), show(vx, 4))
             (ctx.ok(rule, fi.key, construct) if why is None else ctx.violation(rule, fi.key, construct, why, where=fi.where))
-    ctx.floor("machine clause fields", n, 2)
+    if not defer:
+        ctx.floor("machine clause fields", n, 2)
 
 
 def rule_file_tags(ctx: Ctx, rule: str = "file-tags") -> None:
